@@ -35,6 +35,28 @@ func invertCffConstraint(exp *constraint.Expr) {
 	}
 }
 
+// collapseDoubleNegation takes the address of a parsed constraint
+// and rewrites every "!!X" in it to "X" in-place.
+//
+// Expr.String renders Not(Not(X)) as "!!X",
+// which the build constraint syntax rejects ("double negation not allowed"),
+// so a constraint like "!(!a)" must be simplified before it is printed.
+func collapseDoubleNegation(exp *constraint.Expr) {
+	switch ex := (*exp).(type) {
+	case *constraint.AndExpr:
+		collapseDoubleNegation(&ex.X)
+		collapseDoubleNegation(&ex.Y)
+	case *constraint.OrExpr:
+		collapseDoubleNegation(&ex.X)
+		collapseDoubleNegation(&ex.Y)
+	case *constraint.NotExpr:
+		collapseDoubleNegation(&ex.X)
+		if inner, ok := ex.X.(*constraint.NotExpr); ok {
+			*exp = inner.X
+		}
+	}
+}
+
 // hasCffTag reports whether a constraint contains the 'cff' tag.
 //
 // Note that this does not evaluate whether the constraint evaluates to true,
@@ -111,6 +133,7 @@ func writeInvertedCffTag(w io.Writer, bs []byte) error {
 		invertCffConstraint(&expr)
 
 		if isGoBuild {
+			collapseDoubleNegation(&expr)
 			fmt.Fprintf(w, "//go:build %v\n", expr.String())
 			continue
 		}
